@@ -83,6 +83,7 @@ class Interp(StmtMixin, ExtMixin, OpsMixin, InterpCore):
                 nd = SAlt(c, nd, SLit("")) if v else SAlt(c, SLit(""), nd)
             f.pieces.append(nd)
             if f.is_file:
+                self.file_writes = self.__dict__.get("file_writes", 0) + 1
                 self.log_event(("write", f.name))
             return
         ExtMixin.write_to(self, f, s, node)
@@ -139,7 +140,15 @@ class Interp(StmtMixin, ExtMixin, OpsMixin, InterpCore):
             if v.consumed:
                 return ListV([], "list")     # a generator yields its items once
             if len(self.loop_stack) > v.born:
-                raise AnalysisError("a generator created outside a loop is consumed inside it (only the first iteration sees its items)")
+                # created outside the enclosing symbolic loop, drained inside it: the first iteration gets every item,
+                # the later ones find it exhausted
+                ctx = self.loop_stack[v.born]
+                v.consumed = True
+                val, evs = self.force(v)
+                for e in evs:
+                    self.log_event(e)
+                cond = Cond("cmp", "==", Num(ep.sym(ctx.var) - ctx.lo), Num(ep.const(0)))
+                return SeqV("guarded", conds=[(cond, True)], part=StmtMixin.as_iterable(self, val, node))
             v.consumed = True
             first = v.value is None
             val, evs = self.force(v)
@@ -209,6 +218,14 @@ class Interp(StmtMixin, ExtMixin, OpsMixin, InterpCore):
     def run_for(self, st, it, env):
         if isinstance(it, SeqV) and it.kind == "rows":
             return self.for_over_rows(st, it, env)
+        if isinstance(it, SeqV) and it.kind == "guarded":
+            # items present on some paths only: the loop body runs over them on those paths
+            n = len(it.conds)
+            self.path_conds.extend(it.conds)
+            try:
+                return self.run_for(st, it.part, env)
+            finally:
+                del self.path_conds[len(self.path_conds) - n:]
         if isinstance(it, GenV) and it.consumed:
             return
         if isinstance(it, GenV) and len(self.loop_stack) > it.born:
